@@ -154,8 +154,9 @@ def write(path, wb):
             '<definedName name="%s">%s</definedName>'
             % (escape(n['name']), escape(n['ref'])) for n in wb['names'])
     wbxml = ('<?xml version="1.0" encoding="UTF-8" standalone="yes"?>'
-             '<workbook xmlns="%s" xmlns:r="%s"><sheets>%s</sheets>%s'
-             '</workbook>' % (NS, RNS, ''.join(
+             '<workbook xmlns="%s" xmlns:r="%s">%s<sheets>%s</sheets>%s'
+             '</workbook>' % (NS, RNS, '<workbookPr date1904="1"/>'
+                              if wb.get('date1904') else '', ''.join(
                  '<sheet name="%s" sheetId="%d" r:id="rId%d"/>'
                  % (escape(sh['name'], {'"': '&quot;'}), i + 1, i + 1)
                  for i, sh in enumerate(wb['sheets'])), names))
